@@ -34,6 +34,7 @@ const (
 	vsyncPath  = "go.uber.org/thriftrw/verifshim/vsync"
 	uatomPath  = "go.uber.org/thriftrw/verifshim/uatomic"
 	vschedPath = "go.uber.org/thriftrw/verifshim/vsched"
+	vlogPath   = "go.uber.org/thriftrw/verifshim/vlog"
 )
 
 type report struct {
@@ -48,6 +49,7 @@ func main() {
 	repo := flag.String("repo", "/repo", "repository root")
 	mapPk := flag.String("maprange", "", "comma-separated package dirs (relative to repo) for the map-range rewrite")
 	syncPk := flag.String("sync", "", "comma-separated package dirs for the sync/atomic/go rewrite")
+	logPk := flag.String("log", "", "comma-separated package dirs in which import \"log\" becomes verifshim/vlog (Fatalf -> panic)")
 	outDir := flag.String("dir", "", "directory for rewritten files")
 	out := flag.String("out", "", "overlay json to write (merged with -base)")
 	base := flag.String("base", "", "existing overlay json to merge")
@@ -70,6 +72,13 @@ func main() {
 			pats = append(pats, "./"+p)
 		}
 		syncSet[filepath.Join(*repo, p)] = true
+	}
+	logSet := map[string]bool{}
+	for _, p := range split(*logPk) {
+		if !mapSet[filepath.Join(*repo, p)] && !syncSet[filepath.Join(*repo, p)] {
+			pats = append(pats, "./"+p)
+		}
+		logSet[filepath.Join(*repo, p)] = true
 	}
 	replace := map[string]string{}
 	if *base != "" {
@@ -111,6 +120,18 @@ func main() {
 				if syncSet[dir] {
 					if rewriteSync(pkg, f, name, *repo, &rep) {
 						changed = true
+					}
+				}
+				if logSet[dir] {
+					for _, imp := range f.Imports {
+						if p, _ := strconv.Unquote(imp.Path.Value); p == "log" {
+							imp.Path.Value = strconv.Quote(vlogPath)
+							if imp.Name == nil {
+								imp.Name = ast.NewIdent("log")
+							}
+							changed = true
+							rep.SyncImports = append(rep.SyncImports, "log->vlog "+name)
+						}
 					}
 				}
 				if !changed {
@@ -270,14 +291,14 @@ func rewriteSync(pkg *packages.Package, f *ast.File, name, repo string, rep *rep
 				imp.Name = ast.NewIdent("sync")
 			}
 			changed = true
-			rep.SyncImports = append(rep.SyncImports, site(pkg.Fset, imp.Pos(), repo))
+			rep.SyncImports = append(rep.SyncImports, p+" in "+name)
 		case "go.uber.org/atomic":
 			imp.Path.Value = strconv.Quote(uatomPath)
 			if imp.Name == nil {
 				imp.Name = ast.NewIdent("atomic")
 			}
 			changed = true
-			rep.SyncImports = append(rep.SyncImports, site(pkg.Fset, imp.Pos(), repo))
+			rep.SyncImports = append(rep.SyncImports, p+" in "+name)
 		case "sync/atomic":
 			rep.Leftover = append(rep.Leftover, "sync/atomic import at "+site(pkg.Fset, imp.Pos(), repo))
 		}
